@@ -84,8 +84,10 @@ def cases(tier, seed):
                         # given for that run only)
                         yield {"uni": u, "cases": od, "kind": "num",
                                "subgrid": sg, "api": "runner",
-                               "shuffle": [False, True, 3][(j // 2) % 3],
-                               "flat": True, "split": False, "keyrot": j % 3}
+                               "shuffle": [False, True, 3][
+                                   core.pick([u, od, "rs"], 3)],
+                               "flat": True, "split": False,
+                               "keyrot": core.pick([u, od, "rk"], 3)}
     # rejected overlaps
     for u in unis:
         for kind in ("num", "dataset"):
